@@ -51,7 +51,7 @@ ResOK(op, exp, got, a) ==
          [] op \in FamOps \cup {"find", "findOne"} -> exp.docs = got.docs
          [] op \in {"count", "estimatedCount", "listIndexes", "listCollections"} -> exp.count = got.count
          [] op = "distinct" -> DistinctOK(got.vals, exp.docs, PathOf(a.path))
-         [] op = "createIndex" -> exp.names = got.names
+         [] op \in {"createIndex", "createIndexes"} -> exp.names = got.names
          [] OTHER -> TRUE
 
 (* expected change events against the observed ones *)
